@@ -253,6 +253,20 @@ class C06(Check):
                 full = hdr + mtx + varint(len(lv)) + b"".join(lv)
                 self.full[hx(full)] = (hdr, mtx, lv)
                 add("blockfull " + hx(full), "block-repeated-hashes-from-bytes")
+        # the constants of the source used as DATA: a block whose previous-block id, or whose listed hashes, are the two ids of
+        # the 202612 exception (or all zero / all ones) is an ordinary block - only a block whose OWN id is the first gets the second
+        for mtx in miner_txs[:2] + other[:1]:
+            mh_ = self.mh(mtx)
+            for cst in (CORRECT_202612, EXISTING_202612, b"\x00" * 32, b"\xff" * 32):
+                for lv in ([], self.leaves(rng, 2), [cst], [cst, cst]):
+                    h0 = self.header(rng)
+                    for hdr in (h0[:-36] + cst + h0[-4:], h0):
+                        if hdr is h0 and cst not in lv:
+                            continue
+                        add("blockparts %s %s %s %s" % (hx(hdr), hx(mtx), hx(mh_), hx(b"".join(lv)) if lv else "-"), "source-constant-as-data")
+                        full = hdr + mtx + varint(len(lv)) + b"".join(lv)
+                        self.full[hx(full)] = (hdr, mtx, lv)
+                        add("blockfull " + hx(full), "source-constant-as-data-from-bytes")
         for n in sorted(counts):
             for mtx in miner_txs:
                 for _ in range(2 if n <= 16 else 1):
